@@ -117,6 +117,14 @@ def do_replay(path):
 
 
 def main(argv=None):
+  import logging
+  logging.disable(logging.CRITICAL)
+  try:
+    from absl import logging as absl_logging
+    absl_logging.set_verbosity(absl_logging.FATAL)
+    absl_logging.set_stderrthreshold('fatal')
+  except Exception:   # pylint: disable=broad-except
+    pass
   ap = argparse.ArgumentParser()
   ap.add_argument('prop')
   ap.add_argument('--tier', default=os.environ.get('VERIF_TIER') or 'quick')
